@@ -466,5 +466,5 @@ def _worker_wrap(ctx, job):
 def run(ctx):
     quick = ctx.tier == "quick"
     versions = (4, 7, 13) if quick else tuple(range(4, 15))
-    ctx.parallel(_worker, [(300, versions)] * 16 if quick else [(12000, versions)] * 16)
+    ctx.parallel(_worker, [(700, versions)] * 16 if quick else [(12000, versions)] * 16)
     ctx.parallel(_worker_wrap, [(3, versions)] * 16 if quick else [(40, versions)] * 16)
